@@ -1557,3 +1557,42 @@ def guard_params(body, site, depth=3, _seen=None):
                         if d[3]['r']['a'][0]['i'] != 0:
                             res |= guard_params(body, d[0], depth - 1, _seen)
     return res
+
+
+def bool_outcome_edges(body, call_blocks):
+    """switches whose discriminant is the bool result of one of `call_blocks`, seen through plain copies and `!`:
+    list of (switch_block, edge_taken_when_true, edge_taken_when_false) with edges as (block, successor)."""
+    cb = set(call_blocks)
+    res = []
+    for bi in body.normal_blocks():
+        t = body.term(bi)
+        if t['k'] != 'switch' or t.get('dty') != 'bool':
+            continue
+        l = op_local(t['a'])
+        neg = False
+        hit = False
+        for _ in range(8):
+            ds = body.defs().get(l, [])
+            if len(ds) != 1:
+                break
+            d = ds[0]
+            if d[2] == 'call':
+                hit = d[0] in cb
+                break
+            r = d[3]['r']
+            if r['k'] == 'un' and r['op'] == 'Not' and op_local(r['a'][0]) is not None:
+                neg = not neg
+                l = op_local(r['a'][0])
+            elif r['k'] in ('use',) and op_place(r['a'][0]) is not None and len(op_place(r['a'][0])) == 1:
+                l = op_place(r['a'][0])[0]
+            else:
+                break
+        if not hit:
+            continue
+        zero = [tg for v, tg in zip(t['vals'], t['ts']) if v == 0]
+        other = [tg for v, tg in zip(t['vals'], t['ts']) if v != 0] + list(t['ts'][len(t['vals']):])
+        if len(zero) != 1 or len(other) != 1:
+            continue
+        tr, fa = (bi, other[0]), (bi, zero[0])
+        res.append((bi, fa, tr) if neg else (bi, tr, fa))
+    return res
